@@ -45,6 +45,28 @@ def runModel (tbl : Table) (g : Globals) (op : String) (args : Array String) : O
   | some (.ok r) => some r
   | some (.error p) => some #[Codec.panicName p]
 
+/-- an exported entry point: `Name`, `Type.Name` with an upper-case method, or an `api.` operation -/
+def isExported (op : String) : Bool :=
+  if op.startsWith "api." then true else
+  match op.splitOn "." with
+  | [f] => f.front.isUpper
+  | [_, m] => m.front.isUpper
+  | _ => false
+
+/-- documented panics (C20): Sign/Payload/Int64…/Int/Rat/Float on NaN (Int, Rat also on ±Inf), MustParse -/
+def panicDocumented (op : String) (args : Array String) : Bool :=
+  let a0 := args.getD 0 ""
+  let isNaN := a0.length == 32 && (a0.startsWith "7c" || a0.startsWith "7d" || a0.startsWith "7e" || a0.startsWith "7f" ||
+                                   a0.startsWith "fc" || a0.startsWith "fd" || a0.startsWith "fe" || a0.startsWith "ff")
+  let isInf := a0.length == 32 && !isNaN && (a0.startsWith "78" || a0.startsWith "79" || a0.startsWith "7a" || a0.startsWith "7b" ||
+                                             a0.startsWith "f8" || a0.startsWith "f9" || a0.startsWith "fa" || a0.startsWith "fb")
+  match op with
+  | "Decimal.Sign" | "Decimal.Int64_" | "Decimal.Int32_" | "Decimal.Uint64" | "Decimal.Uint32" | "api.Float" => isNaN
+  | "Decimal.Payload_" | "api.Payload" => !isNaN
+  | "api.Int" | "api.Rat" | "api.RatRoundTrip" => isNaN || isInf
+  | "api.MustParse" => true
+  | _ => false
+
 partial def loop (tbl : Table) (spec : SpecTable) (h : IO.FS.Stream) (out : IO.FS.Stream) (st : Stats) : IO Stats := do
   let line ← h.getLine
   if line.isEmpty then return st
@@ -64,6 +86,12 @@ partial def loop (tbl : Table) (spec : SpecTable) (h : IO.FS.Stream) (out : IO.F
       if r != res then
         st := { st with modelMismatch := st.modelMismatch + 1 }
         out.putStrLn s!"MODEL {line} ## model={" ".intercalate r.toList}"
+    if op == "NONDET" then
+      st := { st with spec := st.spec + 1, specViolation := st.specViolation + 1 }
+      out.putStrLn s!"SPEC {line} ## nondeterministic result, modified input or modified global state"
+    if (res.getD 0 "").startsWith "PANIC" && isExported op && !panicDocumented op args then
+      st := { st with spec := st.spec + 1, specViolation := st.specViolation + 1 }
+      out.putStrLn s!"SPEC {line} ## undocumented panic of an exported entry point"
     match spec[op]? with
     | none => pure ()
     | some f =>
